@@ -1595,6 +1595,8 @@ fn run_case(case: &Case, known: &KnownFindings) -> CaseReport {
 
 #[path = "c06/bigjoin.rs"]
 mod bigjoin;
+#[path = "c06/reinput.rs"]
+mod reinput;
 
 fn main() {
     let mut check = Check::new("C06", "exploration");
@@ -1623,6 +1625,14 @@ fn main() {
         GroupOpts { cases: n, threads: 4, watchdog_s: 900, max_shrink_iters: 10 },
         bigjoin::strategy,
         bigjoin::run,
+    );
+    let n = check.cases(200, 4000);
+    check.group(
+        "second_input",
+        "a session (plain, or the one a thread post created; stub prompt or ls/bash/write tool run) receives 1-2 FURTHER inputs, right after the first 202 or after its run ended; subscribers attach before, between and at the end. The stream in the log must be seq 0,1,2,... once each and every subscriber must hold exactly those frames (a prefix while the stream was still produced, all of them at the end). non-trivial = at least one further input; distinct by case hash",
+        GroupOpts { cases: n, threads: 8, watchdog_s: 600, max_shrink_iters: 10 },
+        reinput::strategy,
+        reinput::run,
     );
     check.finish();
 }
